@@ -25,7 +25,7 @@ def dirOf (m : KV) : Option Bool :=
 
 def ev (st : St) (e : Ev) : St := { st with s := Acct.step st.s e }
 
-def step (st : St) (cmd : String) (m : KV) : Option (St × String) :=
+def step1 (st : St) (cmd : String) (m : KV) : Option (St × String) :=
   match cmd with
   | "acct.new" => pure (init, "ok")
   | "acct.put" => do
@@ -85,10 +85,20 @@ def step (st : St) (cmd : String) (m : KV) : Option (St × String) :=
     let u ← getNat m "uid"
     if st.s.present u then pure (st, s!"up={st.s.stored (u, false)} down={st.s.stored (u, true)}")
     else pure (st, "absent")
-  | "acct.ghost" => do        -- ghost terms (not compared with the implementation; for the evidence samples)
+  | "acct.ghost" => do        -- ghost terms the harness keeps as well (volume carried, credit granted)
     let u ← getNat m "uid"
     let s := st.s
-    pure (st, s!"carried={s.carried (u, false)}:{s.carried (u, true)} granted={s.granted (u, false)}:{s.granted (u, true)} old={s.old (u, false)}:{s.old (u, true)} dropped={s.dropped (u, false)}:{s.dropped (u, true)}")
+    pure (st, s!"carried={s.carried (u, false)}:{s.carried (u, true)} granted={s.granted (u, false)}:{s.granted (u, true)}")
+  | "acct.ghost2" => do
+    let u ← getNat m "uid"
+    let s := st.s
+    pure (st, s!"old={s.old (u, false)}:{s.old (u, true)} dropped={s.dropped (u, false)}:{s.dropped (u, true)} pending={s.pending (u, false)}:{s.pending (u, true)}")
   | _ => none
+
+/-- `q=1`: the implementation's state could not be observed at this point (another operation was parked holding a
+lock); the op is applied and the state is compared at the next observed op -/
+def step (st : St) (cmd : String) (m : KV) : Option (St × String) := do
+  let (st', out) ← step1 st cmd m
+  if get m "q" == some "1" then pure (st', "ok") else pure (st', out)
 
 end Driver.D16
